@@ -147,7 +147,10 @@ def run(ck, ix, tier):
     f = uc.methods["__hash__"]
     ck.analysed(f)
     src = norm(f.node)
-    ck.check("hash(frozenset(self._d.items()))" in src and "self._hash is None" in src, "G-PROV", "UnitsContainer.__hash__|over-items", f.loc(),
+    hs = [c for c in walk_local(f.node) if isinstance(c, ast.Call) and isinstance(c.func, ast.Name) and c.func.id == "hash"]
+    stores = [a for a in walk_local(f.node) if isinstance(a, ast.Assign) and any(norm(t) == "self._hash" for t in a.targets)]
+    okh = len(hs) == 1 and norm(hs[0]) == "hash(frozenset(self._d.items()))" and len(stores) == 1 and stores[0].value is hs[0] and "is None" in src
+    ck.check(okh, "G-PROV", "UnitsContainer.__hash__|over-items", f.loc(),
              "hash over the (name, exponent) items, memoised", "the container hash is no longer hash(frozenset(items))")
 
     # ------------------------------------------------------------ (c) canonical form
@@ -159,7 +162,10 @@ def run(ck, ix, tier):
             for a in walk_local(m.node):
                 if not (isinstance(a, ast.AugAssign) and isinstance(a.target, ast.Subscript)):
                     continue
-                tgt = dotted(a.target.value)
+                tv = a.target.value
+                if isinstance(tv, ast.Name) and defs_of(m).single(tv.id) is not None:
+                    tv = defs_of(m).single(tv.id)                       # `exponents = new._d` is an alias of the table
+                tgt = dotted(tv) or dotted(a.target.value)
                 if tgt is None or not (tgt.endswith("._d") or tgt == "d"):
                     continue
                 n_can += 1
